@@ -37,9 +37,9 @@ Definition lpv_eqb (a b : lpv) : bool :=
 Definition exact_on (tie : Z -> bool) (R M : ext) (h w : nat) (img : list (list xv)) : bool :=
   let xc := unit_coords (Z.of_nat w) in
   let yc := unit_coords (Z.of_nat h) in
-  let g := process key_euclid tie R M xc yc [] img in
+  let g := process (metric_of_key key_euclid) tie R M xc yc [] img in
   forallb (fun t => lpv_eqb (prox_of g (fst t) (snd t))
-                            (expected M (brute key_euclid xc yc [] img (fst t) (snd t))))
+                            (expected M (brute (metric_of_key key_euclid) xc yc [] img (fst t) (snd t))))
           (all_cells (Z.of_nat h) (Z.of_nat w)).
 
 (* shapes up to 3x4 and 4x3 *)
@@ -69,13 +69,13 @@ Definition witness_img : list (list xv) :=
    [XFin 1; XFin 0; XFin 0; XFin 0]].
 Lemma witness_not_exact :
   let xc := unit_coords 4 in
-  prox_of (process key_euclid (fun _ => false) EInf EInf xc xc [] witness_img) 0 0 = LVal (EFin 9) /\
-  index_of (process key_euclid (fun _ => false) EInf EInf xc xc [] witness_img) 0 0 = Some (0, 3) /\
-  brute key_euclid xc xc [] witness_img 0 0 = Some 8.
+  prox_of (process (metric_of_key key_euclid) (fun _ => false) EInf EInf xc xc [] witness_img) 0 0 = LVal (EFin 9) /\
+  index_of (process (metric_of_key key_euclid) (fun _ => false) EInf EInf xc xc [] witness_img) 0 0 = Some (0, 3) /\
+  brute (metric_of_key key_euclid) xc xc [] witness_img 0 0 = Some 8.
 Proof. vm_compute. repeat split. Qed.
 Lemma witness_neq :
-  prox_of (process key_euclid (fun _ => false) EInf EInf (unit_coords 4) (unit_coords 4) [] witness_img) 0 0 <>
-  expected EInf (brute key_euclid (unit_coords 4) (unit_coords 4) [] witness_img 0 0).
+  prox_of (process (metric_of_key key_euclid) (fun _ => false) EInf EInf (unit_coords 4) (unit_coords 4) [] witness_img) 0 0 <>
+  expected EInf (brute (metric_of_key key_euclid) (unit_coords 4) (unit_coords 4) [] witness_img 0 0).
 Proof. vm_compute. discriminate. Qed.
 
 Lemma forallb3 {A B C} (f : A -> B -> C -> bool) (la : list A) (lb : list B) (lc : A -> list C) :
